@@ -379,6 +379,13 @@ pub struct Regex {
     cr: CompiledRegex,
 }
 
+#[cfg(all(regress_verif, feature = "std"))]
+impl Regex {
+    pub(crate) fn verif_cr(&self) -> &CompiledRegex {
+        &self.cr
+    }
+}
+
 impl From<CompiledRegex> for Regex {
     fn from(cr: CompiledRegex) -> Self {
         Self { cr }
